@@ -77,10 +77,11 @@ Definition move_insert (v : vec) (pos : Z) (xs : list Z) : res vec :=
     do v' <- emplace_all v xs;
     rotate_buf v' pos b.
 
-(* insert(position, n, x): n is a size_t; size() + n is size_t arithmetic (wraps) *)
+(* insert(position, n, x): n is a size_t (a negative case-file number denotes its two's complement);
+   TETL_PRECONDITION(n <= capacity() - size()) *)
 Definition insert_n (v : vec) (pos : Z) (n : Z) (x : Z) : res vec :=
   if negb (pos_ok v pos) then Contract
-  else if negb (wrapu 64 (sz v + n) <=? cap v) then Contract
+  else if negb (wrapu 64 n <=? wrapu 64 (cap v - sz v)) then Contract
   else
     let b := sz v in
     (* while (n != 0) push_back(x): at most capacity+1 iterations before a contract fires *)
@@ -194,20 +195,20 @@ Definition iv_try_push_back (v : vec) (x : Z) : res (vec * bool) :=
     do b <- oset (buf v) (szn v) x;
     do v' <- set_size {| buf := b; sz := sz v |} (sz v + 1);
     Ok (v', true).
-(* the Capacity = 0 specialisation answers front/back/[]/unchecked_*/pop_back with etl::unreachable() *)
+(* the Capacity = 0 specialisation answers front/back/[]/unchecked_*/pop_back with TETL_PRECONDITION(false) *)
 Definition iv_unchecked_push_back (v : vec) (x : Z) : res vec :=
-  if cap v =? 0 then UB NullDeref else
+  if cap v =? 0 then Contract else
   if sz v =? cap v then Contract
   else do b <- oset (buf v) (szn v) x; set_size {| buf := b; sz := sz v |} (sz v + 1).
 Definition iv_pop_back (v : vec) : res vec :=
-  if cap v =? 0 then UB NullDeref else if is_empty v then Contract else set_size v (sz v - 1).
+  if cap v =? 0 then Contract else if is_empty v then Contract else set_size v (sz v - 1).
 Definition iv_at (v : vec) (i : Z) : res Z :=
-  if cap v =? 0 then UB NullDeref else
+  if cap v =? 0 then Contract else
   if negb (wrapu 64 i <? sz v) then Contract else oget (buf v) (Z.to_nat i).
 Definition iv_front (v : vec) : res Z :=
-  if cap v =? 0 then UB NullDeref else if is_empty v then Contract else oget (buf v) 0.
+  if cap v =? 0 then Contract else if is_empty v then Contract else oget (buf v) 0.
 Definition iv_back (v : vec) : res Z :=
-  if cap v =? 0 then UB NullDeref else if is_empty v then Contract else oget (buf v) (Z.to_nat (sz v - 1)).
+  if cap v =? 0 then Contract else if is_empty v then Contract else oget (buf v) (Z.to_nat (sz v - 1)).
 (* copy constructor: uninitialized_copy + size.  Move constructor: trivially movable T = bitwise copy
    (source keeps its size), otherwise uninitialized_move + source.clear(); the moved-from state is
    unspecified, so the modelled operation is "move-construct, then clear() the source" *)
